@@ -19,7 +19,8 @@ PROP = "C04"
 FUNCTIONS = ["FSArray.__init__", "FSArray.__setitem__", "FSArray.__getitem__", "fsarray", "slicesize (stubbed, lemma)",
              "normalize_slice", "FmtStr.setslice_with_length", "FmtStr.splice", "FmtStr.__getitem__", "FmtStr.__radd__",
              "FmtStr.__add__", "fmtstr"]
-BOUNDS = ("whole __setitem__: rows before the assignment H in 0..2 (thorough 0..3), each row one run; region rows r0:r1 with "
+BOUNDS = ("column regions 0 <= c0 <= c1 <= width, and (wide twins) regions reaching up to two columns past the right edge; " +
+          "whole __setitem__: rows before the assignment H in 0..2 (thorough 0..3), each row one run; region rows r0:r1 with "
           "r0 <= H+1, r1 <= H+2 fixed per instance; block = list of str / list of FmtStr / FSArray with the right or a wrong "
           "number of rows (wrong number: region width <= 2, because the real error path builds a region-sized message); "
           "row kernel setslice_with_length: row of <= 2 runs, block row str or 2 runs. Width W >= 0, columns "
@@ -60,11 +61,18 @@ def instances(tier, seed):
                     out.append({"name": "assign-H%d-r%d:%d-%s-B%d%s" % (Hh, r0, r1, kind, B, "" if part is None else "-p%d" % part),
                                 "fn": "assign", "timeout": T if part is None else T + 90, "cost": 1 if part is None else 10,
                                 "params": {"H": Hh, "r0": r0, "r1": r1, "kind": kind, "B": B, "part": part}})
+    # column regions that reach past the right edge of the array (c1 > width; c0 up to width + 1)
+    out += [dict(i, name=i["name"] + "-wide", params=dict(i["params"], wide=True)) for i in out
+            if i["params"]["part"] is None and i["params"]["B"] == i["params"]["r1"] - i["params"]["r0"] and i["params"]["kind"] != "fsarray"
+            and (tier != "quick" or i["params"]["H"] >= 1)]
     for K in (0, 1, 2):
         for bk in ("str", "fmt"):
             out.append({"name": "rowkernel-K%d-%s" % (K, bk), "fn": "rowkernel", "timeout": T, "params": {"K": K, "kind": bk}})
     for Hh in (0, 1, 2):
         out.append({"name": "build-H%d" % Hh, "fn": "build", "timeout": T, "params": {"H": Hh}})
+        # constructor formatting arguments: they format the str entries, a FmtStr entry keeps its own formatting
+        out.append({"name": "build-H%d-kw" % Hh, "fn": "build", "timeout": T, "params": {"H": Hh, "fmt": "kw"}})
+        out.append({"name": "build-H%d-pos" % Hh, "fn": "build", "timeout": T, "params": {"H": Hh, "fmt": "pos"}})
     return out
 
 
@@ -116,9 +124,22 @@ def _blockrow(j, kind, k0, k1, mk, runs=2):
     return FmtStr(Chunk(mk(20 + 2 * j, k0), BLK_ATTS[j % 3][0]), Chunk(mk(21 + 2 * j, k1), BLK_ATTS[j % 3][1]))
 
 
-def _as_fmt(x):
+def _as_fmt(x, atts=None):
     from curtsies.formatstring import FmtStr, Chunk
-    return x if isinstance(x, FmtStr) else FmtStr(Chunk(x))
+    return x if isinstance(x, FmtStr) else FmtStr(Chunk(x, atts or {}))
+
+
+_FMT_ATTS = {"kw": {"fg": 34, "bold": True}, "pos": {"bg": 42}}
+
+
+def _fsarray(rows, W):
+    from curtsies.formatstringarray import fsarray
+    fmt = P.get("fmt")
+    if fmt == "kw":
+        return fsarray(rows, W, fg="blue", bold=True)
+    if fmt == "pos":
+        return fsarray(rows, W, "on_green")
+    return fsarray(rows, W)
 
 
 BLANK_ATT = None
@@ -161,7 +182,7 @@ def _row_same(new, old, Pz, W):
 def assign(W: int, c0: int, c1: int, a0: int, a1: int, b0: int, b1: int, d0: int, d1: int,
            k0: int, k1: int, k2: int, k3: int, k4: int, k5: int, p: int) -> bool:
     """
-    pre: W >= 0 and 0 <= c0 <= c1 <= W
+    pre: W >= 0 and 0 <= c0 <= c1 and ((W < c1 <= W + 2 and c0 <= W + 1) if P.get("wide") else c1 <= W)
     pre: a0 >= 0 and a1 >= 0 and b0 >= 0 and b1 >= 0 and d0 >= 0 and d1 >= 0
     pre: a0 + a1 <= W and b0 + b1 <= W and d0 + d1 <= W
     pre: k0 >= 0 and k1 >= 0 and k2 >= 0 and k3 >= 0 and k4 >= 0 and k5 >= 0
@@ -301,7 +322,7 @@ def build(W: int, a0: int, a1: int, b0: int, b1: int, p: int) -> bool:
     lens = [a0 + a1, b0 + b1][:Hh]
     fits = all(n <= W for n in lens)
     try:
-        arr = fsarray(rows, W)
+        arr = _fsarray(rows, W)
         raised = False
     except ValueError:
         raised = True
@@ -309,7 +330,7 @@ def build(W: int, a0: int, a1: int, b0: int, b1: int, p: int) -> bool:
         return verdict(not fits, False)
     if not fits:
         return verdict(False)
-    rfmts = [_as_fmt(r) for r in rows]
+    rfmts = [_as_fmt(r, _FMT_ATTS.get(P.get("fmt"))) for r in rows]
     with NoTracing():
         Wz, Pz = zint(W), zint(p)
         if len(arr.rows) != Hh or arr.num_columns is not W:
@@ -425,14 +446,16 @@ def concrete(fn, params, args):
         rows = [_row(0, a0, a1, src_text), src_text(9, b0 + b1)][:Hh]
         fits = all(len(r) <= W for r in rows)
         call = "fsarray(%r, %d)" % (rows, W)
+        if params.get("fmt"):
+            call += " + constructor formatting %r" % (_FMT_ATTS[params["fmt"]],)
         try:
-            arr = fsarray(rows, W)
+            arr = _fsarray(rows, W)
         except ValueError as ex:
             return {"ok": not fits, "observed": "raised %r" % (ex,), "expected": "ValueError only when a string is too long", "call": call}
         if not fits:
             return {"ok": False, "observed": repr(arr.rows), "expected": "ValueError", "call": call}
         got = _grid(arr.rows, W)
-        want = _grid(rows, W)
+        want = _grid([_as_fmt(r, _FMT_ATTS.get(params.get("fmt"))) for r in rows], W)
         return {"ok": got == want and arr.shape == (Hh, W) and all(len(r) <= W for r in arr.rows), "observed": [fmt_cells(r) for r in got],
                 "expected": [fmt_cells(r) for r in want], "call": call}
     raise KeyError(fn)
